@@ -67,6 +67,7 @@ type jNFAState struct {
 	ID      int        `json:"id"`
 	Accept  bool       `json:"accept"`
 	NG      bool       `json:"ng"`
+	Rule    int        `json:"rule"`
 	HasActs bool       `json:"has_acts"`
 	Acts    []jLexAct  `json:"acts"`
 	Pos     int        `json:"pos"`
